@@ -1,4 +1,4 @@
-\* repaired model, from an empty database, no bloom-window boundary in reach, 7 operations x {ok,fail,crash}; exhaustive: 4 115 distinct states (27 140 generated), 3 s
+\* repaired model, from an empty database, no bloom-window boundary in reach, 7 operations x every durable mutation (those of the lazy filter initialisation included) x {ok,fail,crash}; exhaustive: 4 115 distinct states (28 968 generated), 3 s
 CONSTANTS
   MaxH = 3
   MaxVer = 2
